@@ -438,6 +438,7 @@ func TestC14SendFail(t *testing.T) {
 							}
 						}})
 						sctx, scancel := context.WithCancel(context.Background())
+						defer scancel()
 						go srv.Serve(sctx, l.S)
 						fault := &bodyFaultRW{Endpoint: l.C}
 						fault.nfault.Store(int64(ev))
